@@ -180,11 +180,13 @@ def run(c):
                      "to another key, second client on an occupied address) before its last call; traces: every recorded run is non-trivial")
 
     # ---- 1. exhaustive -----------------------------------------------------------------------------
-    r = c.tlc(SD, "MC_SnapTunnel", cfg=mc(c, "mc_full.cfg") if thorough else mc(c, "mc_full.cfg", maxt=3, lifes="{1, 2}"), timeout=3000)
+    r = c.tlc(SD, "MC_SnapTunnel", cfg=mc(c, "mc_full.cfg") if thorough else mc(c, "mc_full.cfg", maxt=3, lifes="{1, 2}"), timeout=3000,
+              coverage=False)
     for inv in r.violated:
         c.violation("spec:%s" % inv, "design-level: %s violated on MC_SnapTunnel (see %s)" % (inv, r.out_path), {"tlc_out": r.out_path})
-    if r.ok:
-        c.require_coverage(r, ["Register", "Advance", "Purge", "Handshake", "DataIn", "Forged", "DataOut", "Timer", "TimerDrop"])
+    rc_ = c.tlc(SD, "MC_SnapTunnel", cfg=mc(c, "mc_cov.cfg", view="MCView", depth=4, maxt=2, lifes="{1}"), timeout=3000)
+    if rc_.ok:
+        c.require_coverage(rc_, ["MCRegister", "MCAdvance", "MCPurge", "MCHandshake", "MCDataIn", "MCForged", "MCDataOut", "MCTimer", "MCTimerDrop"])
     for variant, want in (("nolapse", "FwdOnlyAuthorised"), ("keepprev", "AuthRefines")):
         r0 = c.tlc(SD, "MC_SnapTunnel", cfg=mc(c, "mc_%s.cfg" % variant, variant=variant, maxt=2, lifes="{1}", view="MCView", depth=5),
                    expect_violation=True, coverage=False, keep_printed=False)
@@ -252,7 +254,7 @@ def run(c):
         c.fail_tool("record harness failed rc=%s %s" % (rc, so[-300:]))
     res = json.load(open(summ))
     r = c.tlc(SD, "Trace_SnapTunnel", mode="trace", env={"TRACE": ev}, timeout=3400)
-    drifts = c.printed_json(r, "DRIFT")
+    drifts = list({d["line"]: d for d in c.printed_json(r, "DRIFT")}.values())   # (TLC may evaluate the print more than once)
     if r.violated:
         for inv in r.violated:
             c.violation("trace:%s" % inv, "P-invariant %s violated on a recorded history of the real registry/server (TLC output %s)" % (inv, r.out_path),
